@@ -28,8 +28,8 @@ impl S {
     }
     // fan one coinbase out into many spendable outputs
     let f = s.fund();
-    let t = s.block(&[TxSpec { ins: vec![f], outs: vec![OutSpec::P2wpkh; 40] }]);
-    for v in 0..40u32 {
+    let t = s.block(&[TxSpec { ins: vec![f], outs: vec![OutSpec::P2wpkh; 120] }]);
+    for v in 0..120u32 {
       s.funding.push((t[1], v));
     }
     s
@@ -220,6 +220,108 @@ pub fn events() -> Vec<Line> {
     TxSpec { ins: vec![input((t2[1], 0))], outs: vec![] },
     TxSpec { ins: vec![input((t2[3], 1))], outs: vec![OutSpec::P2wpkh, rs_out(&cen)] },
   ]);
+  // block D: an inscription created directly on a valued OP_RETURN output (single-output reveal),
+  // another one created on a plain output and then moved onto an OP_RETURN output in block E
+  let mut d = s.fund();
+  d.witness = ins_w("born-burned", vec![]);
+  let mut e = s.fund();
+  e.witness = ins_w("burned-later", vec![]);
+  let t4 = s.block(&[
+    TxSpec { ins: vec![d], outs: vec![opret()] },
+    TxSpec { ins: vec![e], outs: vec![OutSpec::P2wpkh] },
+  ]);
+  s.block(&[TxSpec { ins: vec![input((t4[2], 0))], outs: vec![opret(), OutSpec::P2wpkh] }]);
   s.block(&[]);
   vec![s.c.line()]
+}
+
+/// C11: reveals with several inputs whose tapscripts push the commitment, in every order of
+/// M = mature p2tr commit, I = immature p2tr commit, N = mature non-taproot output, X = input
+/// without commitment: all 24 orders of the four (etches: M is there), all 6 orders of {I, N, X}
+/// (does not etch), all 12 ordered pairs, and two different commitments in two mature inputs.
+pub fn multi_commit_edges() -> Line {
+  let mut s = S::new();
+  // commit block 1 (mature at the reveal): 40 p2tr + 40 p2wpkh outputs
+  let f = s.fund();
+  let mut outs = vec![OutSpec::P2tr; 40];
+  outs.extend(vec![OutSpec::P2wpkh; 40]);
+  let c1 = s.block(&[TxSpec { ins: vec![f], outs }])[1];
+  let h1 = s.c.height();
+  for _ in 0..3 {
+    s.block(&[]);
+  }
+  // commit block 2 (immature at the reveal): 40 p2tr outputs
+  let f = s.fund();
+  let c2 = s.block(&[TxSpec { ins: vec![f], outs: vec![OutSpec::P2tr; 40] }])[1];
+  assert_eq!(s.next() - h1 + 1, 6);
+  let base = Rune::minimum_at_height(bitcoin::Network::Regtest, Height(h1)).0 + 5000;
+  let (mut m, mut i, mut n) = (0u32, 0u32, 0u32);
+  let mut k = 0u128;
+  let mut specs = Vec::new();
+  let mut reveal = |s: &mut S, kinds: &[char], specs: &mut Vec<TxSpec>| {
+    let name = Rune(base + 10 * k);
+    k += 1;
+    let mut ins = Vec::new();
+    for c in kinds {
+      let w = commit_witness(&name.commitment());
+      ins.push(match c {
+        'M' => {
+          m += 1;
+          InSpec { txnum: c1, vout: m - 1, witness: w }
+        }
+        'O' => {
+          // mature p2tr input that commits to another name
+          m += 1;
+          InSpec { txnum: c1, vout: m - 1, witness: commit_witness(&Rune(name.0 + 1).commitment()) }
+        }
+        'I' => {
+          i += 1;
+          InSpec { txnum: c2, vout: i - 1, witness: w }
+        }
+        'N' => {
+          n += 1;
+          InSpec { txnum: c1, vout: 40 + n - 1, witness: w }
+        }
+        _ => s.fund(),
+      });
+    }
+    let rs = RsSpec { etching: Some(Etching { rune: Some(name), premine: Some(1), ..Default::default() }), ..Default::default() };
+    specs.push(TxSpec { ins, outs: vec![OutSpec::P2wpkh, rs_out(&rs)] });
+  };
+  fn perms(v: &[char]) -> Vec<Vec<char>> {
+    if v.len() <= 1 {
+      return vec![v.to_vec()];
+    }
+    let mut out = Vec::new();
+    for i in 0..v.len() {
+      let mut rest = v.to_vec();
+      let x = rest.remove(i);
+      for mut p in perms(&rest) {
+        p.insert(0, x);
+        out.push(p);
+      }
+    }
+    out
+  }
+  for p in perms(&['M', 'I', 'N', 'X']) {
+    reveal(&mut s, &p, &mut specs);
+  }
+  for p in perms(&['I', 'N', 'X']) {
+    reveal(&mut s, &p, &mut specs);
+  }
+  let all = ['M', 'I', 'N', 'X'];
+  for a in all {
+    for b in all {
+      if a != b {
+        reveal(&mut s, &[a, b], &mut specs);
+      }
+    }
+  }
+  reveal(&mut s, &['O', 'M'], &mut specs);
+  reveal(&mut s, &['M', 'O'], &mut specs);
+  reveal(&mut s, &['O', 'I'], &mut specs);
+  reveal(&mut s, &['I', 'O', 'M'], &mut specs);
+  drop(reveal);
+  s.block(&specs);
+  s.c.line()
 }
